@@ -56,6 +56,13 @@ type frameIn struct {
 	// defined: message of the package
 	Name    string `json:"name"`
 	Payload string `json:"payload"`
+	// tail: probe for the stream socket (observation only)
+	At    int `json:"at"`
+	Inner struct {
+		Type int `json:"type"`
+		Hi   int `json:"hi"`
+		Lo   int `json:"lo"`
+	} `json:"inner"`
 }
 
 // ---- output
@@ -80,6 +87,10 @@ type frameOut struct {
 	Ctor    string `json:"ctor,omitempty"`    // what the constructor produced
 	SendErr string `json:"sendErr,omitempty"` // error of sendMessage
 	Infra   string `json:"infra,omitempty"`
+	// tail probe: what the SECOND readMessage on the same connection returned
+	Second     string `json:"second,omitempty"`
+	SecondType int    `json:"secondType,omitempty"`
+	SecondLen  int    `json:"secondLen,omitempty"`
 }
 
 // Fill is the payload pattern of Frame.tla: byte i of pattern f.
@@ -255,6 +266,41 @@ func runVec(v *frameIn, kind string) frameOut {
 	return out
 }
 
+// runTail: one oversized frame on a stream socket, two reads on the same connection.
+func runTail(v *frameIn, kind string) frameOut {
+	out := frameOut{Kind: "tail", ID: v.ID, Net: kind, BadAt: -1}
+	w, r, err := sockPair(kind)
+	if err != nil {
+		out.Outcome, out.Infra = "infra", err.Error()
+		return out
+	}
+	defer r.Close()
+	p := pattern(v.Fill, v.Carried)
+	if v.At+3 <= len(p) {
+		p[v.At], p[v.At+1], p[v.At+2] = byte(v.Inner.Type), byte(v.Inner.Hi), byte(v.Inner.Lo)
+	}
+	b := append([]byte{byte(v.Type), byte(v.Hi), byte(v.Lo)}, p...)
+	if err := put(w, b); err != nil {
+		w.Close()
+		out.Outcome, out.Infra = "infra", "write: "+err.Error()
+		return out
+	}
+	defer w.Close() // stays open: the second read must not be answered by the end of the stream
+	m, rerr, pan, stack := guardedRead(r)
+	describe(&out, m, rerr, pan, stack, v.Fill)
+	r.SetReadDeadline(time.Now().Add(time.Second))
+	m2, err2, pan2, _ := guardedRead(r)
+	switch {
+	case pan2 != "":
+		out.Second = "panic: " + pan2
+	case err2 != nil:
+		out.Second = "reject"
+	case m2 != nil:
+		out.Second, out.SecondType, out.SecondLen = "accept", int(m2.Type), int(m2.Len)
+	}
+	return out
+}
+
 func readAll(c *net.UnixConn, n int, kind string) ([]byte, error) {
 	c.SetReadDeadline(time.Now().Add(3 * time.Second))
 	if kind == "unixpacket" {
@@ -364,6 +410,8 @@ func frames(args []string) error {
 		switch v.Kind {
 		case "vec":
 			return w.Write(runVec(&v, *kind))
+		case "tail":
+			return w.Write(runTail(&v, *kind))
 		case "rt":
 			p := pattern(v.Fill, v.Len)
 			msg := &hotrestart.VerifMessage{Type: uint8(v.Type), Len: uint16(v.Len), Data: p}
